@@ -96,7 +96,7 @@ def oracle(ck, extended):
     rng = ck.rng; npr = ck.nprng
     q = ck.tier == 'quick'
     for mask in (1, 2, 3):
-        oracle_smoothmag(ck, mask); oracle_smoothmag(ck, mask, zero=True)
+        rt.guard(ck, oracle_smoothmag, ck, mask); oracle_smoothmag(ck, mask, zero=True)
     n = (12 if q else 100) * (2 if extended else 1)
     for it in range(n):
         biort, qshift = rng.choice(FAMS)
@@ -106,9 +106,9 @@ def oracle(ck, extended):
         if order == 2:
             H = rng.choice([8, 16, 5, 11]); W = rng.choice([8, 16, 6])
         x = npr.standard_normal((1, C, H, W))
-        oracle_layer_grad(ck, order, biort, qshift, b, colour, x)
+        rt.guard(ck, oracle_layer_grad, ck, order, biort, qshift, b, colour, x)
         if it % 3 == 0:
-            oracle_layer_grad(ck, order, biort, qshift, b, colour, np.zeros_like(x), zero_input=True)
+            rt.guard(ck, oracle_layer_grad, ck, order, biort, qshift, b, colour, np.zeros_like(x), zero_input=True)
 
 
 def run(ck):
